@@ -42,8 +42,11 @@ class MCResult:
     mode: str = "bfs"
 
 
-def _java_cmd(extra_jvm=()):
-    return ["java", "-Xss16m", *extra_jvm, "-cp", JAR + ":" + DEPS, "tlc2.TLC"]
+def _java_cmd(extra_jvm=(), tmpdir=None):
+    # TLC unpacks its standard modules into java.io.tmpdir (one tlc-* directory per run, not always removed): keep them in
+    # the run's own metadir, which is deleted afterwards
+    tmp = (f"-Djava.io.tmpdir={tmpdir}",) if tmpdir else ()
+    return ["java", "-Xss16m", *tmp, *extra_jvm, "-cp", JAR + ":" + DEPS, "tlc2.TLC"]
 
 
 _RE_STATES = re.compile(r"(\d+) states generated, (\d+) distinct states found")
@@ -59,7 +62,7 @@ def model_check(module: str, cfg: str, workers: int = 16, timeout: int = 1200,
                 jvm=()) -> MCResult:
     """Run TLC on spec/<module>.tla with spec/<cfg>.  simulate='num=1000' switches to random walks."""
     meta = tempfile.mkdtemp(prefix="tlcmeta_")
-    cmd = _java_cmd(("-XX:+UseParallelGC", *jvm)) + ["-workers", str(workers), "-metadir", meta, "-noGenerateSpecTE"]
+    cmd = _java_cmd(("-XX:+UseParallelGC", *jvm), tmpdir=meta) + ["-workers", str(workers), "-metadir", meta, "-noGenerateSpecTE"]
     if coverage and not simulate:
         cmd += ["-coverage", "1"]
     if simulate:
@@ -134,7 +137,7 @@ _RE_SUMMARY = re.compile(r'^"SUMMARY\|(\d+)\|(\d+)\|(\d+)\|(\d+)\|(\d+)"\s*$', r
 
 def _validate_one(module: str, cfg: str, trace_file: str, timeout: int, env: dict | None):
     meta = tempfile.mkdtemp(prefix="tlcmeta_")
-    cmd = _java_cmd(("-Xmx3g", "-XX:+UseSerialGC", "-XX:TieredStopAtLevel=4")) + ["-workers", "1", "-metadir", meta, "-noGenerateSpecTE",
+    cmd = _java_cmd(("-Xmx3g", "-XX:+UseSerialGC", "-XX:TieredStopAtLevel=4"), tmpdir=meta) + ["-workers", "1", "-metadir", meta, "-noGenerateSpecTE",
                                     "-config", cfg, module + ".tla"]
     e = dict(os.environ)
     e["TRACE_FILE"] = trace_file
